@@ -24,7 +24,10 @@ class C05(Check):
         "every run), RRSIG type covered / algorithm mnemonics, TimeToString for a clock reading given as a parameter "
         "and StringToTime (time.Format/time.Parse of layout 20060102150405 by calendar arithmetic, the RFC 1982 "
         "serial arithmetic and the uint32 truncation), euiToString and the EUI parsers, the NID/L64 groups and "
-        "stringToNodeID.")
+        "stringToNodeID; B05b: HIP (HIT and key verbatim with the recomputed lengths, base64.StdEncoding.DecodeString as a "
+        "length function, the rendezvous server list), IPSECKEY and AMTRELAY (compound three-token atoms, net.IP.String, "
+        "parseAddrHostUnion with the To4() family test, AMTRELAY discovery bit) and AAAA (netip.Addr.AppendTo zero-run "
+        "compression, netip.parseIPv6 in full, the ParseAddr dispatch, the ::ffff: prefix of AAAA.String).")
     rule = (
         "direct oracles on the implementation alone: for every type in dns.TypeToRR with a presentation format (all but "
         "ANY, NULL, NXNAME, OPT, TSIG, TKEY; the exclusion list is re-checked against the code at run time) records are "
@@ -46,13 +49,19 @@ class C05(Check):
         "alphabet, random strings, the 255/1025 limits; lexer tokens on bounded-exhaustive short inputs, hand-written "
         "lines and every printed record; endingToTxtSlice/endingToString; Type.String/Class.String of all 65536 codes "
         "by block checksum (sampled blocks in quick); CertTypeToString/AlgorithmToString; TimeToString at the clock "
-        "reading of the run and StringToTime on boundary dates, invalid dates, fractions and random times; header and RDATA text of generated records of the 66 covered "
+        "reading of the run and StringToTime on boundary dates, invalid dates, fractions and random times; header and RDATA text of generated records of the 70 covered "
         "types (model present = String()) and the parse result of NewRR on them and on hand-written header shapes, "
         "generic forms and malformed lines (model parse = NewRR). A case is non-trivial when its arguments are not "
         "empty; distinct by hash of (function, arguments, output).")
     partial = [
-        "eight irregular printers are not modelled; they are covered by the Go oracles only (modelled: false): AAAA, "
-        "LOC, APL, HIP, IPSECKEY, AMTRELAY, SVCB, HTTPS",
+        "four irregular printers are not modelled; they are covered by the Go oracles only (modelled: false): "
+        "LOC, APL, SVCB, HTTPS",
+        "B05b rows: net.IP values are seen through To16() (nil = empty, four octets = IPv4-mapped; other lengths outside the "
+        "model); HIP round trip under HitLength = uint8(len/2), PublicKeyLength = uint16(decoded length), HIT/key one word; "
+        "gateway under gw_wf (type 1 IPv4(-mapped), type 2 not IPv4-mapped, type 3 an absolute one-word host); IPv6 text is "
+        "proved for every 16-octet address (c05_ip6_roundtrip, c05_aaaa_roundtrip)",
+        "c05_ipseckey_v4mapped_refuted / c05_ipseckey_v4_reread and c05_hip_empty_hit_refuted prove two more known findings "
+        "on the model (IPv4-mapped gateway under type 2; empty HIP HIT)",
         "GPOS: strconv.ParseFloat is modelled as accepting plain decimals (sign, digits, at most one point, up to 300 "
         "octets) and rejecting the empty token; for any other token the model gives no answer (OutOfFuel) and the round "
         "trip is proved for plain decimals only",
@@ -75,7 +84,8 @@ class C05(Check):
     ]
     trusted = [
         "the model's strings.ToUpper is ASCII only (Go's is Unicode aware; differs only for non-ASCII letters in a type/class token)",
-        "net.IP.String / net.ParseIP are modelled for dotted-quad IPv4 only",
+        "net.IP.String / net.ParseIP: dotted-quad IPv4 and (B05b) IPv6 by hand models of netip.Addr.AppendTo / "
+        "netip.parseIPv6; encoding/base64 DecodeString as a hand-written acceptance and length function",
         "time.Unix/Format/Parse (layout 20060102150405) are modelled by proleptic Gregorian calendar arithmetic; fmt %x/%X, "
         "strconv.ParseUint base 16, strings.Fields (ASCII)",
         "strconv.Itoa/ParseUint, strings.Builder, reflect-based field extraction in the harness",
